@@ -242,6 +242,13 @@ func (vm *VirtualMachine) resetForNewCode() {
 	vm.activeCode = nil
 	vm.loadedCode = map[*compiler.Code]*code{}
 	vm.modules = map[string]*object.Module{}
+	// Modules that were provided as globals stay available to import
+	// statements, as they are for the first code that runs on this VM.
+	for name, value := range vm.globals {
+		if module, ok := value.(*object.Module); ok {
+			vm.modules[name] = module
+		}
+	}
 
 	// Clear arrays
 	for i := 0; i < MaxStackDepth; i++ {
